@@ -2,6 +2,8 @@ import CookModel.Lemmas.TextLaws
 import CookModel.Syntax.Blocks
 import CookModel.Lemmas.Blocks
 import CookModel.Lemmas.CoverEvents
+import CookModel.Lemmas.CoverAll
+import CookModel.Lemmas.CoverInput
 /-
   C05  No recipe content is silently dropped.
 
@@ -144,7 +146,11 @@ theorem C05_text_run_covers (off : Nat) (ts : List Tok) (h : Chain off ts) (he :
     over `metadata_entry`/`section` that ties them to the pushed event and accounts for `>>`, `:`,
     `=`), text blocks (`>`), and steps with components (needs the exact event span
     `[offset before the marker, offset after the body/note]`, which `SpansEv.lean` only bounds from
-    one side), and the lift from blocks to the whole input (`C05_lexed_tokens_reach_a_block`). -/
+    one side), and the lift from blocks to the whole input (`C05_lexed_tokens_reach_a_block`).
+    ALL OF THIS IS NOW PROVED BELOW: `C05_step_events_cover` (steps with components, every token
+    with a body), `C05_block_events_cover` (every block shape, content tokens),
+    `C05_metadata_entry_covers`, `C05_section_covers`, `C05_component_covers_consumed`,
+    `C05_input_tokens_covered` and `C05_conservation` (the whole input). -/
 theorem C05_events_cover_partial {α : Type} [Arith α] (cs : CharSpec) (ext : Ext) (oldStyle : Bool)
     (b : List Tok) (evs : Array (Ev α)) (hw : WF b) (hnm : NoMarkerTok b)
     (hhead : ∀ t, b.head? = some t → t.kind ≠ .metaStart ∧ t.kind ≠ .eq ∧ t.kind ≠ .textStep)
@@ -168,5 +174,169 @@ example : HasBody ⟨.word, ['b'], 8⟩ := ⟨by simp, by simp, by simp [tokBody
 example : ¬ HasBody ⟨.blockComment, "[-c-]".toList, 2⟩ := fun h => h.2.1 rfl
 example : NoMarkerTok [⟨.word, ['a'], 0⟩, ⟨.ws, [' '], 1⟩, ⟨.word, ['b'], 2⟩] := by
   intro t ht; simp at ht; rcases ht with rfl | rfl | rfl <;> rfl
+
+/-! ## Event level, all block shapes; the whole input -/
+
+/-- **Components.**  Whatever `ingredient()`, `cookware()` or `timer()` consumes is inside the
+    returned event: when the parser, run from cursor `c` of a block of adjacent tokens, returns an
+    event, the event's span is EXACTLY `[current_offset at c, current_offset at the cursor after]`,
+    so every token between the two cursors (marker, modifiers, name, alias, braces, quantity, note)
+    lies inside it — whatever diagnostics were pushed on the way.  (When the parser gives up it
+    returns `None`, `with_recover` restores the cursor and the tokens go to the text run,
+    `C05_block_events_cover`.) -/
+theorem C05_component_covers_consumed {α : Type} [Arith α] (ts : List Tok) (hw : WF ts) (e : Ext)
+    (s : BP α) (hg : G ts e s) (p : P α (Option (Ev α)))
+    (hp : p = ingredientP ∨ p = cookwareP ∨ p = timerP) (ev : Ev α) (hr : (p s).1 = some ev) :
+    ev.srcSpan = some ⟨offAt ts s.cur, offAt ts (p s).2.cur⟩ ∧
+    ∀ (i : Nat) (t : Tok), s.cur ≤ i → i < (p s).2.cur → ts[i]? = some t →
+      offAt ts s.cur ≤ t.start ∧ t.stop ≤ offAt ts (p s).2.cur :=
+  cov_component_span_exact hw hg p hp ev hr
+
+/-- **Event-level conservation, every block shape.**  `Wordy cs t` ("content token"): the token
+    shows a character that is not white space (so it is no comment; for an escape `\x` the
+    character is `x`) and is none of: line break, whitespace token, `>>`, `=`, `>` — in particular
+    every word and number token.  For EVERY block of adjacent tokens (`WF`: what the splitter hands
+    to `BlockParser::new`), every extension set, either metadata style and every previous queue,
+    `parse_block` + `finish` leave every content token of the block inside the source span of an
+    event: a metadata line `>> key: value` inside `key.start .. value.end` of its entry (or, when
+    the line is rejected — no `:`, or entries are not accepted — inside the events of the step it
+    is re-parsed as); a section line inside the name of the `Section` event (a line with junk after
+    the closing `=` is re-parsed as a step); a `>` text block inside the `Text` event of its line;
+    a step inside the component event that consumed it or the `Text` event of its text run.  No
+    hypothesis on diagnostics: the model never drops a content token, with or without errors.
+    This extends `C05_events_cover_partial` (text-only steps, every token with a body) to all
+    shapes; what is no longer claimed are whitespace and line-break tokens and the markers
+    `>>`, `=`, `>`, which `metadata_entry`, `section` and `parse_text_block` skip by design. -/
+theorem C05_block_events_cover {α : Type} [Arith α] (cs : CharSpec) (ext : Ext) (oldStyle : Bool)
+    (b : List Tok) (evs : Array (Ev α)) (hw : WF b) (t : Tok) (ht : t ∈ b) (hc : Wordy cs t) :
+    CoveredBy (runBlock cs ext oldStyle b evs none).1 t :=
+  runBlock_coverAll_wf cs ext oldStyle b evs hw t ht hc
+
+/-- **Steps with components, every token.**  `C05_events_cover_partial` without the hypothesis
+    "no `@ # ~`": for every block of adjacent tokens that does not start with `>>`, `=` or `>` and is
+    not blank — a step with any mixture of text, ingredients, cookware, timers, well-formed or not —
+    EVERY token that is not a comment (words, numbers, punctuation, whitespace, line breaks, bodies
+    of escapes, component markers, braces, quantities, notes) lies inside the span of a `Text`,
+    `Ingredient`, `Cookware` or `Timer` event, for every extension set and every previous queue; no
+    hypothesis on diagnostics. -/
+theorem C05_step_events_cover {α : Type} [Arith α] (cs : CharSpec) (ext : Ext) (oldStyle : Bool)
+    (b : List Tok) (evs : Array (Ev α)) (hw : WF b)
+    (hhead : ∀ t, b.head? = some t → t.kind ≠ .metaStart ∧ t.kind ≠ .eq ∧ t.kind ≠ .textStep)
+    (hnb : b.all (fun t => isEmptyTok t.kind) = false)
+    (t : Tok) (ht : t ∈ b) (hb : HasBody t) :
+    CoveredBy (runBlock cs ext oldStyle b evs none).1 t :=
+  runBlock_step_coverB cs ext oldStyle b evs hw hhead hnb t ht hb
+
+/-- **Metadata lines, key and value separately.**  When `metadata_entry`, run on a block of adjacent
+    tokens, returns an entry (it does so whenever the line starts with `>>` and has a `:` — an
+    empty key is an error and an empty value a warning, but the entry is still returned), the entry
+    is `Metadata key value` with: the first `:` of the line at some position `ci` (`MetaCovers`);
+    every content token before it inside the span of the KEY text, every content token after it
+    inside the span of the VALUE text; and `key.span.end ≤ ':' ≤ value.span.start`.  Only the `>>`
+    and the `:` are outside both. -/
+theorem C05_metadata_entry_covers {α : Type} [Arith α] (cs : CharSpec) (ext : Ext) (b : List Tok)
+    (evs : Array (Ev α)) (hw : WF b) (ev : Ev α)
+    (h : (metadataEntry (α := α) ⟨b, 0, ext, cs, evs, none⟩).1 = some ev) : MetaCovers cs b ev :=
+  metadataEntry_coverFine (cs := cs) (cov_wf_wfi hw) (⟨rfl, rfl, rfl, Nat.zero_le _⟩ : G b ext _) rfl ev h
+
+/-- **Section lines.**  When `section` returns an event (no `section-invalid` warning: nothing but
+    blanks after the closing `=`), every content token of the line lies inside the span of the
+    section's name (`EvCovers`; so the name is present: `Section(Some name)`); the tokens outside
+    the name are `=`, whitespace and comments. -/
+theorem C05_section_covers {α : Type} [Arith α] (cs : CharSpec) (ext : Ext) (b : List Tok)
+    (evs : Array (Ev α)) (hw : WF b) (ev : Ev α)
+    (h : (sectionP (α := α) ⟨b, 0, ext, cs, evs, none⟩).1 = some ev) : EvCovers cs b ev :=
+  sectionP_coverAll (cs := cs) (cov_wf_wfi hw) (⟨rfl, rfl, rfl, Nat.zero_le _⟩ : G b ext _) rfl rfl ev h
+
+/-- … and what earlier blocks put into the queue stays covered -/
+theorem C05_block_keeps_covered {α : Type} [Arith α] (cs : CharSpec) (ext : Ext) (oldStyle : Bool)
+    (b : List Tok) (evs : Array (Ev α)) (panic : Option String) (t : Tok) (h : CoveredBy evs t)
+    (hw : WF b) (hp : panic = none) : CoveredBy (runBlock cs ext oldStyle b evs panic).1 t := by
+  subst hp
+  exact (runBlock_coverAll (K := fun u => u = t) cs ext oldStyle b evs (cov_wf_wfi hw) Boundary.first
+    (fun u hu => by rw [hu]; exact h)).1 t rfl
+
+/-- **The token stream of a whole input.**  `bodyToks cs input` is what `PullParser` splits into
+    blocks (the lexed input, or the lexed body after the front matter at its byte offset).  Every
+    content token of it is covered by an event of the pull parser run to completion: the splitter
+    drops only blank tokens (`C05_splitter_conserves`), every block is covered
+    (`C05_block_events_cover`), later blocks only add events. -/
+theorem C05_input_tokens_covered {α : Type} [Arith α] (cs : CharSpec) (ext : Ext) (input : List Char)
+    (t : Tok) (ht : t ∈ bodyToks cs input) (hc : Wordy cs t) :
+    CoveredBy (pullEvents (α := α) cs ext input).1 t :=
+  pullEvents_coverAll cs ext input t ht hc
+
+/-- a lexed token that is not a comment and contains a letter or digit is a content token
+    (`AlnumSpec`: letters and digits are not white space and none of `> = \ LF CR -`) -/
+theorem C05_alnum_tokens_are_content (cs : CharSpec) (hs : AlnumSpec cs) (off : Nat) (s : List Char)
+    (t : Tok) (ht : t ∈ lexFrom cs off s) (hlc : t.kind ≠ .lineComment) (hbc : t.kind ≠ .blockComment)
+    (c : Char) (hc : c ∈ t.text) (ha : cs.alnum c = true) : Wordy cs t := by
+  obtain ⟨nx, hsp⟩ := wellSpelled_mem (lexFrom_wellSpelled cs off s) ht
+  exact cov_wordy_of_alnum hs hsp hlc hbc hc ha
+
+/-- Front matter: the parts of the input that neither the front-matter event nor the body carries
+    — blank lines and the opening fence before the YAML text, the closing fence after it — consist
+    of white space and `-` only. -/
+theorem C05_frontmatter_skips_fences_only (cs : CharSpec) (s : List Char) (fm : FrontMatter)
+    (h : parseFrontmatter cs s = some fm) :
+    ∃ pre mid, s = pre ++ fm.yamlText ++ mid ++ fm.cookText ∧
+      fm.yamlOffset = utf8Len pre ∧ fm.cookOffset = utf8Len (pre ++ fm.yamlText ++ mid) ∧
+      (∀ c ∈ pre, cs.uws c = true ∨ c = '-') ∧ (∀ c ∈ mid, cs.uws c = true ∨ c = '-') :=
+  cov_frontmatter_layout cs s fm h
+
+/-- **C05, the clause of DESIGN.md §6, for every input.**  Let the character tables satisfy
+    `AlnumSpec` (a letter or digit is not white space and none of `> = \ LF CR -`; true of the
+    Unicode tables).  Every letter or digit of the input — the character `c` at byte `utf8Len a`
+    when the input is `a ++ c :: z` — lies
+    * inside a comment token of the body (`InComment`), or
+    * inside the source span of an event of `PullParser` run to completion (`BytesCovered`): a
+      text, ingredient, cookware, timer, metadata entry (key start .. value end), section name or
+      the front matter.
+    The clause is stated in DESIGN.md under the hypothesis that the stream has no `Error` event; at
+    model level the hypothesis is not needed: components that fail are re-read as text
+    (`with_recover`), rejected `>>`/`=` lines are re-parsed as steps, and diagnostics never replace
+    an event.  Proof by position: before the body only white space, fences and the YAML text of
+    the front-matter event (`C05_frontmatter_skips_fences_only`); in the body the tokens tile the
+    text (`C04_tokens_tile`), the splitter drops only blank tokens and every content token of every
+    block is covered (`C05_input_tokens_covered`). -/
+theorem C05_conservation {α : Type} [Arith α] (cs : CharSpec) (hs : AlnumSpec cs) (ext : Ext)
+    (input a z : List Char) (c : Char) (hin : input = a ++ c :: z) (ha : cs.alnum c = true) :
+    InComment cs input (utf8Len a) (utf8Len a + c.utf8Size) ∨
+    BytesCovered (pullEvents (α := α) cs ext input).1 (utf8Len a) (utf8Len a + c.utf8Size) :=
+  cov_input_conservation cs hs ext input a z c hin ha
+
+/-! non-vacuity.  The hypothesis on the character tables is satisfiable; words and numbers are
+    content tokens, whitespace tokens and comments are not. -/
+example : AlnumSpec toyCharSpec := toyCharSpec_alnumSpec
+example : Wordy toyCharSpec ⟨.word, "salt".toList, 5⟩ :=
+  ⟨⟨'s', by decide, by decide⟩, by decide, by decide, by decide, by decide, by decide⟩
+example : Wordy toyCharSpec ⟨.escaped, ['\\', 'x'], 5⟩ :=
+  ⟨⟨'x', by decide, by decide⟩, by decide, by decide, by decide, by decide, by decide⟩
+example : ¬ Wordy toyCharSpec ⟨.ws, [' '], 4⟩ := fun h => h.2.2.1 rfl
+example : ¬ Wordy toyCharSpec ⟨.lineComment, "-- c".toList, 4⟩ := fun h => h.notComment.1 rfl
+
+/-! a step with a component: `a@b` (word, marker, word) satisfies the hypotheses of
+    `C05_step_events_cover`; the marker token has a body -/
+example : WF [⟨.word, ['a'], 0⟩, ⟨.at, ['@'], 1⟩, ⟨.word, ['b'], 2⟩] :=
+  ⟨by simp, ⟨by simp [baseOff, Chain, Tok.stop, utf8Len]; decide, by intro t ht hk; simp at ht; rcases ht with rfl | rfl | rfl <;> simp at hk⟩⟩
+example : HasBody ⟨.at, ['@'], 1⟩ := ⟨by simp, by simp, by simp [tokBodyStart, Tok.stop, utf8Len]; decide⟩
+
+/-! `Mix @salt{1} -- c`: the events carry the spans 0..4 (text), 4..12 (ingredient: marker, name,
+    braces, quantity), 12..13 (text); the comment token starts at byte 13.  The `c` at byte 16 is
+    in the comment and in no event; the `M` at byte 0 is in the first text. -/
+example : (pullEvents (α := Rat) toyCharSpec ⟨0⟩ "Mix @salt{1} -- c".toList).1.toList.map Ev.covSpan =
+    [none, some ⟨0, 4⟩, some ⟨4, 12⟩, some ⟨12, 13⟩, none] := by decide +kernel
+example : InComment toyCharSpec "Mix @salt{1} -- c".toList 16 17 :=
+  ⟨⟨.lineComment, "-- c".toList, 13⟩, by decide +kernel, Or.inl rfl, by decide, by decide⟩
+
+/-! `>> k: v`: the entry is returned; key span 2..4 (` k`), value span 5..7 (` v`) -/
+example : (match (metadataEntry (α := Rat) ⟨lex toyCharSpec ">> k: v".toList, 0, ⟨0⟩, toyCharSpec, #[], none⟩).1 with
+    | some (.metadata k v) => (k.span, v.span) == (⟨2, 4⟩, ⟨5, 7⟩)
+    | _ => false) = true := by decide +kernel
+
+/-! with front matter: the YAML text `t: x⏎` is the span 4..9 of the front-matter event, the section
+    name ` A ` 14..17, the `>` text line `note` 21..25 -/
+example : ((pullEvents (α := Rat) toyCharSpec ⟨0⟩ "---\nt: x\n---\n= A =\n> note".toList).1.toList.map
+    Ev.covSpan).filter Option.isSome = [some ⟨4, 9⟩, some ⟨14, 17⟩, some ⟨21, 25⟩] := by decide +kernel
 
 end Cook
